@@ -433,6 +433,14 @@ pub fn enumerate(specs: &[Specimen], seed: u64, tier: Tier, only_covered: bool) 
                     cases.push((si, Damage::Multi { file: fi, flips }));
                 }
             }
+            // big compressed clusters: a few KiB of noise in the middle and towards the end (decoding then fails after a prefix
+            // of the cluster has been decoded and published)
+            for sp in view.spans.iter().filter(|sp| sp.name == "cluster data (compressed)" && sp.end - sp.start >= 65_536) {
+                for frac in [2u64, 4] {
+                    let start = sp.start + (sp.end - sp.start) * (frac - 1) / frac;
+                    cases.push((si, Damage::Overwrite { file: fi, start, len: 4096.min(sp.end - start), seed: rng.next() }));
+                }
+            }
             if only_covered {
                 // CRC-consistent alterations: one byte of a CRC-protected block and the block's CRC refreshed
                 for (bstart, blen) in &view.blocks {
